@@ -1,7 +1,7 @@
 SPECIFICATION Spec
 CONSTANTS MaxLen = 2
  Pad = 0
- Kinds = {"P","B","C","CS","K2","K3","KP","SN","SN3","SP","D","U","V","I0","I2","J1","IL","L","F","W","MB","MC","MK","MT"}
+ Kinds = {"P","B","C","CS","K2","K3","KP","SN","SN3","SP","D","U","V","I0","I2","J1","IL","L","F","W","MB","MK","MT"}
  Eols = {"LF","CRLF","CR"}
  Seed = 0
  Stride = 1
